@@ -85,8 +85,11 @@ class Parser(BaseParser):
                     # Carry over any items still in the scan buffer, to past the end of the ignored items.
                     delayed_matches[m.end()].extend([(item, i, None) for item in to_scan ])
 
-                    # If we're ignoring up to the end of the file, # carry over the start symbol if it already completed.
-                    delayed_matches[m.end()].extend([(item, i, None) for item in columns[i] if item.is_complete and item.s == start_symbol])
+                    # If we're ignoring up to the end of the file, carry over the start symbol if it already completed.
+                    # It is only needed where the parse may end, so it joins its column after the completer has run there
+                    # (completed again, every derivation through it would appear twice).
+                    carried_solutions[m.end()].extend([item for item in columns[i]
+                                                       if item.is_complete and item.s == start_symbol and item.start == 0])
 
             next_to_scan = self.Set()
             next_set = self.Set()
@@ -128,7 +131,7 @@ class Parser(BaseParser):
 
             del delayed_matches[i+1]    # No longer needed, so unburden memory
 
-            if not next_set and not delayed_matches and not next_to_scan:
+            if not next_set and not delayed_matches and not next_to_scan and not carried_solutions:
                 considered_rules = list(sorted(to_scan, key=lambda key: key.rule.origin.name))
                 raise UnexpectedCharacters(stream, i, text_line, text_column, {item.expect.name for item in to_scan},
                                            set(to_scan), state=frozenset(i.s for i in to_scan),
@@ -138,7 +141,17 @@ class Parser(BaseParser):
             return next_to_scan, node_cache
 
 
+        def add_carried_solutions(i, node_cache):
+            for item in carried_solutions.pop(i, ()):
+                new_item = Item(item.rule, item.ptr, item.start)
+                label = (new_item.s, new_item.start, i)
+                new_item.node = node_cache[label] if label in node_cache else node_cache.setdefault(label, self.SymbolNode(*label))
+                for child in item.node.children:
+                    new_item.node.add_family(new_item.s, child.rule, new_item.start, child.left, child.right)
+                columns[i].add(new_item)
+
         delayed_matches = defaultdict(list)
+        carried_solutions = defaultdict(list)
         match = self.term_matcher
         terminals = self.lexer_conf.terminals_by_name
 
@@ -159,6 +172,7 @@ class Parser(BaseParser):
         node_cache = {}
         for token in stream:
             self.predict_and_complete(i, to_scan, columns, transitives, node_cache)
+            add_carried_solutions(i, node_cache)
 
             to_scan, node_cache = scan(i, to_scan)
 
@@ -170,6 +184,7 @@ class Parser(BaseParser):
             i += 1
 
         self.predict_and_complete(i, to_scan, columns, transitives, node_cache)
+        add_carried_solutions(i, node_cache)
 
         ## Column is now the final column in the parse.
         assert i == len(columns)-1
